@@ -10,6 +10,7 @@
 #include <unistd.h>
 #include <malloc.h>
 #include <pthread.h>
+#include <sys/wait.h>
 #if defined(__SANITIZE_ADDRESS__)
 #include <sanitizer/lsan_interface.h>
 #endif
@@ -186,6 +187,30 @@ int main(int argc, char **argv) {
         uint64_t sd = mix64(base, i);
         printf("BEGIN %llu\n", (unsigned long long) sd); fflush(stdout);
         opts.setu("run_index", i);
+        if (opts.geti("fork")) {
+            // one child process per run: import attempts that end in abort / null-dereference are left by siglongjmp and
+            // leak whatever the importer had allocated (hundreds of MB over a truncation sweep); the child's exit returns it
+            fflush(stdout);
+            pid_t pid = fork();
+            if (pid == 0) {
+                Plan p = s->gen(sd, opts);
+                finalize_plan(p, opts, sd);
+                RunResult r;
+                apply_perturb(p);
+                exec_maybe_in_thread(s, p, r);
+                printf("%s\n", result_line(sd, p, r, (int) (i - first) < samples, (int) (i - first) < samples).c_str());
+                fflush(stdout);
+                _exit(r.v.set ? 1 : 0);
+            }
+            int st = 0; waitpid(pid, &st, 0);
+            if (WIFSIGNALED(st) || (WIFEXITED(st) && WEXITSTATUS(st) > 1)) {   // the child died inside the run: die the same way so that the driver classifies it
+                fflush(stdout);
+                if (WIFSIGNALED(st)) { signal(WTERMSIG(st), SIG_DFL); raise(WTERMSIG(st)); }
+                _exit(WEXITSTATUS(st));
+            }
+            if (WIFEXITED(st) && WEXITSTATUS(st) == 1) viol++;
+            continue;
+        }
         Plan p = s->gen(sd, opts);
         finalize_plan(p, opts, sd);
         RunResult r;
